@@ -93,6 +93,8 @@ extern "C" void harness(void)
     for (int i = 0; i < NT; ++i)
       VCLAIM(15, (((nmask >> wloc[i]) & 1) != 0) == (i >= VF_NA && oc[i] == 5), "C15.lists_exactly_matching_saturated_expectations");
     VCLAIM(3, (mask >> wsatreq) & 1, "C03.beyond_max_names_saturated_expectation");
+    // the live expectations were NOT named in this report: their own end-of-life report is still due (C04)
+    for (int i = 0; i < VF_NA; ++i) VCLAIM(4, !e[i]->reported, "C04.expectation_not_named_in_a_report_is_not_marked_reported");
   }
   else
   {
@@ -130,5 +132,6 @@ extern "C" void harness(void)
   unsigned before = vf_nreports;
   for (int i = 0; i < NT; ++i) e[i].reset();
   if (!any_sat_match) VCLAIM(4, vf_nreports == before, "C04.no_second_report_after_no_match_listing");
+  else VCLAIM(4, vf_nreports == before + VF_NA && vf_nfatal == 1, "C04.unfulfilled_expectations_not_named_earlier_report_once_each_at_release");
   verif_reach();
 }
